@@ -76,6 +76,9 @@ type hist struct {
 	removedSize, removedGone     int
 	overlapTaint                 map[string]bool // urls of servers with overlapping sessions (scenario "overlap")
 	violated                     bool
+	// concurrent rounds: what the round just executed did (classification of a lost registration)
+	roundNew     map[string]bool    // "url/vid": the server registered vid in this round (new in a full list, or incremental new)
+	roundRemoved map[layoutKey]bool // layouts from which some other stream unregistered a volume in this round
 }
 
 func newHist(r *lib.Run, ex *lib.HExec, det caseDetail) *hist {
@@ -383,6 +386,13 @@ func (h *hist) check(st lib.HStep, bi lib.BeatInfo, executed []lib.HStep) (resyn
 				// the id was a normal volume whose last replicas went away by disconnect: the
 				// layout still has an empty (non-nil) location list, which Lookup returns
 				class, in = "ec-shadowed-by-empty-location-list", "ec-after-normal-replicas-disconnected"
+			case h.det.Mode != "seq" && input == "normal" && len(missing) > 0 && len(extra) == 0 && a.normal &&
+				h.roundRemoved[layoutKey{a.collection, a.rp, a.ttl, a.disk}] && h.lostWithLayout(topo, vid, missing):
+				// every missing server registered the volume in the round just executed while another
+				// stream unregistered a volume of the same layout, and the master's own data node
+				// registry still lists the volume: the registration went into a layout object that
+				// UnRegisterVolumeLayout's "isEmpty() then DeleteLayout" removed from the topology
+				class, in = "registration-lost-with-concurrently-deleted-layout", "layout-emptied-by-another-stream-in-the-same-round"
 			case input == "ec" && len(got) == 0 && pass == 1 && collectionExists(topo, col):
 				// named collection that also has normal volumes: EC locations are not consulted
 				class, in = "ec-skipped-for-named-collection", "ec"
@@ -410,6 +420,27 @@ func (h *hist) check(st lib.HStep, bi lib.BeatInfo, executed []lib.HStep) (resyn
 		}
 	}
 	return nil
+}
+
+// lostWithLayout: each missing server registered vid in the round just executed and the
+// data node linked in the master's tree still has vid in its registry.
+func (h *hist) lostWithLayout(topo *topology.Topology, vid uint32, missing []string) bool {
+	reg := map[string]bool{}
+	for _, ts := range lib.WalkServers(topo) {
+		for _, d := range ts.Disks {
+			for _, v := range d.Vols {
+				if uint32(v.Id) == vid {
+					reg[ts.Url] = true
+				}
+			}
+		}
+	}
+	for _, u := range missing {
+		if !h.roundNew[fmt.Sprintf("%s/%d", u, vid)] || !reg[u] {
+			return false
+		}
+	}
+	return true
 }
 
 func subset(xs []string, set map[string]bool) bool {
@@ -565,9 +596,61 @@ func runConc(r *lib.Run, det caseDetail, rounds [][]lib.HStep) *hist {
 				}
 			}
 		}
+		pre := map[int]map[uint32]bool{}
+		for idx, s := range ex.Model.Servers {
+			if s.Connected {
+				pre[idx] = map[uint32]bool{}
+				for vid := range s.Vols {
+					pre[idx][vid] = true
+				}
+			}
+		}
 		if err := ex.Concurrent(round); err != nil {
 			r.Inconclusive(fmt.Sprintf("%s history %d: harness step failed: %v", det.Part, det.Hist, err))
 			return h
+		}
+		h.roundNew, h.roundRemoved = map[string]bool{}, map[layoutKey]bool{}
+		for _, st := range round {
+			if st.HB == nil {
+				continue
+			}
+			u := serverUrl(round, rounds, st.Srv)
+			for _, v := range st.HB.NewVolumes {
+				h.roundNew[fmt.Sprintf("%s/%d", u, v.Id)] = true
+			}
+			listed := map[uint32]bool{}
+			for _, v := range st.HB.Volumes {
+				listed[v.Id] = true
+				if !pre[st.Srv][v.Id] {
+					h.roundNew[fmt.Sprintf("%s/%d", u, v.Id)] = true
+				}
+			}
+			for _, v := range st.HB.DeletedVolumes {
+				h.roundRemoved[layoutKey{v.Collection, v.ReplicaPlacement, v.Ttl, v.DiskType}] = true
+			}
+			if len(st.HB.Volumes) > 0 || st.HB.HasNoVolumes {
+				// a full list unregisters what it no longer names (approximated with the state before the round
+				// plus everything this server registered earlier in the round)
+				cand := map[uint32]bool{}
+				for vid := range pre[st.Srv] {
+					cand[vid] = true
+				}
+				for _, st2 := range round {
+					if st2.Srv == st.Srv && st2.HB != nil {
+						for _, v := range st2.HB.Volumes {
+							cand[v.Id] = true
+						}
+						for _, v := range st2.HB.NewVolumes {
+							cand[v.Id] = true
+						}
+					}
+				}
+				for vid := range cand {
+					if a := h.seen[vid]; a != nil && a.normal && !listed[vid] {
+						h.roundRemoved[layoutKey{a.collection, a.rp, a.ttl, a.disk}] = true
+					}
+				}
+			}
 		}
 		r.Count("barriers", 1)
 		h.check(lib.HStep{Kind: "barrier"}, lib.BeatInfo{}, nil)
@@ -736,6 +819,37 @@ func runRaceJoin(r *lib.Run, det caseDetail, k int) {
 	}
 }
 
+// runLayoutRace: server A holds volumes that are alone in their layouts; in one round A's
+// full heartbeat drops them while B's full heartbeat registers the same ids (a volume
+// moved from A to B). Afterwards the volumes are registered on B.
+func runLayoutRace(r *lib.Run, det caseDetail, nvol int) *hist {
+	mk := func(srv int, vols ...lib.RegVol) *lib.RegServer {
+		s := &lib.RegServer{Idx: srv, Ip: fmt.Sprintf("10.3.0.%d", srv+1), Port: 8080, Vols: map[uint32]lib.RegVol{}, Ec: map[uint32]lib.RegEc{}, Max: map[string]int64{"": 20}}
+		s.Url = fmt.Sprintf("%s:%d", s.Ip, s.Port)
+		for _, v := range vols {
+			s.Vols[v.Id] = v
+		}
+		return s
+	}
+	var vols []lib.RegVol
+	for i := 0; i < nvol; i++ {
+		vols = append(vols, lib.RegVol{Id: uint32(i + 1), Collection: fmt.Sprintf("cx%d", i), RP: lib.RPByte("000"), Size: 1000})
+	}
+	aFull, _ := mk(0, vols...).ResyncBeats()
+	aEmpty, _ := mk(0).ResyncBeats()
+	bEmpty, _ := mk(1).ResyncBeats()
+	bFull, _ := mk(1, vols...).ResyncBeats()
+	rounds := [][]lib.HStep{
+		{{Kind: "connect", Srv: 0}, {Kind: "beat", Srv: 0, HB: aFull, Tag: "first-full"}},
+		{{Kind: "connect", Srv: 1}, {Kind: "beat", Srv: 1, HB: bEmpty, Tag: "first-full"}},
+		{{Kind: "beat", Srv: 0, HB: aEmpty, Tag: "full-volumes-moved-away"}, {Kind: "beat", Srv: 1, HB: bFull, Tag: "full-volumes-moved-here"}},
+		{{Kind: "beat", Srv: 1, HB: bFull, Tag: "full"}},
+	}
+	h := runConc(r, det, rounds)
+	r.Count("layoutrace_volumes_moved", int64(nvol))
+	return h
+}
+
 func main() {
 	if os.Getenv("VERIF_GLOG") == "" {
 		// the master logs several lines per heartbeat at V(0); panics still reach the real fd 2
@@ -793,7 +907,7 @@ func main() {
 			}
 			parts = append(parts, "conc-asmin"+am, "overlap-asmin"+am)
 		}
-		parts = append(parts, "racejoin-asmin0")
+		parts = append(parts, "racejoin-asmin0", "layoutrace-asmin0")
 		// children are independent processes; three at a time
 		sem := make(chan struct{}, 4)
 		var wg sync.WaitGroup
@@ -866,6 +980,12 @@ func main() {
 			det := caseDetail{Part: part, AsMin: asMin, Mode: "overlap", Hist: v}
 			r.Case(det)
 			runOverlap(r, det, v)
+		}
+	case "layoutrace":
+		for i := 0; i < r.Pick(60, 600); i++ {
+			det := caseDetail{Part: part, AsMin: asMin, Mode: "layoutrace", Hist: i}
+			r.Case(det)
+			runLayoutRace(r, det, 2+i%4)
 		}
 	case "racejoin":
 		for i := 0; i < r.Pick(40, 400); i++ {
